@@ -35,7 +35,7 @@ from amoco.sa.lsweep import lsweep
 
 PID = "C18"
 LEVEL = "model_checking"
-ITEM_TIMEOUT = {"quick": 420, "thorough": 3000}
+ITEM_TIMEOUT = {"quick": 900, "thorough": 3600}
 ASSUMPTIONS = [
     "decoder stub: read_instruction(loc) returns instruction k iff loc == base + L_0 + .. + L_(k-1), else None; lengths 1..3 bytes, the stream does not wrap around the 32-bit address space",
     "a delayed branch is not itself in the delay slot of another delayed branch (assumed; architecturally unpredictable)",
